@@ -199,6 +199,14 @@ class FieldData:
                "refer to the line:\n"+
                "\n".join([str(g) for g in self._refs.get("paths", []) +
                                            self._refs.get("sets", [])]))
+           if value is not None and not gfapy.is_placeholder(value) and \
+               not isinstance(value, str):
+             # (at vlevel 0 the value is not validated: the line would be
+             # unregistered and then fail to be registered again)
+             raise gfapy.TypeError(
+               "Line: {}\n".format(str(self))+
+               "The identifier of a line must be a string, "+
+               "found: {}".format(repr(value)))
            other = self._gfa.line(value) if isinstance(value, str) else None
            if other is not None and other is not self:
              raise gfapy.NotUniqueError(
